@@ -10,6 +10,11 @@ fn ct_eq(a: &Ciphertext, b: &Ciphertext) -> bool {
     a.data() == b.data() && a.parms_id() == b.parms_id() && a.size() == b.size() && a.is_ntt_form() == b.is_ntt_form()
         && a.scale().to_bits() == b.scale().to_bits() && a.correction_factor() == b.correction_factor()
 }
+/// the plaintext operand at the level of `a` (CKKS plaintexts are level-bound; BFV/BGV coefficient plaintexts are level-free)
+fn plain_at(s: &Setup, plain: &Plaintext, a: &Ciphertext) -> Plaintext {
+    if s.scheme != SchemeType::CKKS { return plain.clone(); }
+    let mut p = plain.clone(); if p.parms_id() != a.parms_id() { if std::panic::catch_unwind(std::panic::AssertUnwindSafe(|| { let pid = *a.parms_id(); s.evaluator.mod_switch_plain_to_inplace(&mut p, &pid) })).is_err() { } } p
+}
 fn refused<F: FnOnce() + std::panic::UnwindSafe>(f: F) -> bool { std::panic::catch_unwind(f).is_err() }
 
 fn valid_line(out: &mut Out, s: &Setup, ct: &Ciphertext, kind: &str, cls: &str) {
@@ -47,6 +52,9 @@ pub fn run(out: &mut Out, thorough: bool, seed: u64, _extra: &[String]) {
         let bits: Vec<usize> = (0..r.range(3, 4) as usize).map(|_| *r.pick(&[40usize, 50, 59])).collect();
         let qs = match pick_primes(&mut r, n, &bits) { Some(v) => v, None => continue };
         let t = if scheme == SchemeType::CKKS { 0 } else { pick_plain(&mut r, n, 0, &qs) };
+        // every other BFV/BGV parameter set has a middle prime that is 1 modulo t (dropping it leaves the BGV correction factor unchanged)
+        let mut qs = qs;
+        if scheme != SchemeType::CKKS && (pi / 3) % 2 == 1 && qs.len() >= 3 { if let Some(p) = prime_one_mod(n, t, 50, &qs) { let mid = qs.len() - 2; qs[mid] = p; } }
         let s = match make(scheme, n, &qs, t, true, None) { Some(s) => s, None => continue };
         let ev = &s.evaluator;
         let relin = s.keygen.create_relin_keys(false);
@@ -111,6 +119,18 @@ pub fn run(out: &mut Out, thorough: bool, seed: u64, _extra: &[String]) {
         forms(out, "square", &cls, &c1, Some(&c2), &|a| ev.square_new(a), &|a, d| ev.square(a, d), &|a| ev.square_inplace(a));
         forms(out, "relinearize", &cls, &prod, Some(&c2), &|a| ev.relinearize_new(a, &relin), &|a, d| ev.relinearize(a, &relin, d), &|a| ev.relinearize_inplace(a, &relin));
         forms(out, "mod_switch_to_next", &cls, &c1, Some(&c2), &|a| ev.mod_switch_to_next_new(a), &|a, d| ev.mod_switch_to_next(a, d), &|a| ev.mod_switch_to_next_inplace(a));
+        // the same switching forms one and two levels down: source correction factor != 1 (BGV), destination pre-filled with a top-level object
+        { let mut cur = c1.clone(); let mut depth = 1;
+          while s.ctx.get_context_data(cur.parms_id()).unwrap().next_context_data().is_some() && depth <= 2 {
+              cur = ev.mod_switch_to_next_new(&cur);
+              if s.ctx.get_context_data(cur.parms_id()).unwrap().next_context_data().is_none() { break; }
+              let c = cur.clone();
+              forms(out, &format!("mod_switch_to_next@{}", depth), &cls, &c, Some(&c2), &|a| ev.mod_switch_to_next_new(a), &|a, d| ev.mod_switch_to_next(a, d), &|a| ev.mod_switch_to_next_inplace(a));
+              forms(out, &format!("negate@{}", depth), &cls, &c, Some(&c2), &|a| ev.negate_new(a), &|a, d| ev.negate(a, d), &|a| ev.negate_inplace(a));
+              forms(out, &format!("add_plain@{}", depth), &cls, &c, Some(&c2), &|a| ev.add_plain_new(a, &plain_at(&s, &plain, a)), &|a, d| ev.add_plain(a, &plain_at(&s, &plain, a), d), &|a| ev.add_plain_inplace(a, &plain_at(&s, &plain, a)));
+              valid_line(out, &s, &c, "r", &format!("{}-switched{}", sn, depth));
+              depth += 1;
+          } }
         forms(out, "add_plain", &cls, &c1, Some(&c2), &|a| ev.add_plain_new(a, &plain), &|a, d| ev.add_plain(a, &plain, d), &|a| ev.add_plain_inplace(a, &plain));
         forms(out, "sub_plain", &cls, &c1, Some(&c2), &|a| ev.sub_plain_new(a, &plain), &|a, d| ev.sub_plain(a, &plain, d), &|a| ev.sub_plain_inplace(a, &plain));
         forms(out, "multiply_plain", &cls, &c1, Some(&c2), &|a| ev.multiply_plain_new(a, &plain), &|a, d| ev.multiply_plain(a, &plain, d), &|a| ev.multiply_plain_inplace(a, &plain));
